@@ -395,4 +395,357 @@ theorem resolveAmount_rel (s0 : Store) {pa pa' : PostingAmount} {s : Store}
     | panic p => simp [ha] at hv
     | fuelOut => simp [ha] at hv
 
+theorem resolvePosting_rel (c0 : Ctx) {p p' : Posting} {c : Ctx}
+    (h : Posting.Rel c0.accounts.SameAccount c0.commodities.SameCommodity p p') (hc : c0.le c) :
+    resolvePosting c p' = resolvePosting c p ∧ ∀ rp c', resolvePosting c p = .ok (rp, c') → c.le c' := by
+  obtain ⟨ha, _, hamt, hbal, _⟩ := h
+  have hens : c.accounts.ensure p'.account = c.accounts.ensure p.account :=
+    Store.ensure_congr (Store.sameAccount_mono hc.1 ha)
+  have hacc : c.accounts.le (c.accounts.ensure p.account).2 := Store.ensure_le _ _
+  cases hpa : p.amount with
+  | none =>
+    cases hpa' : p'.amount with
+    | some b => rw [hpa, hpa'] at hamt; simp [optRel] at hamt
+    | none =>
+      have ib := resolveOptBalance_rel c0.commodities (s := c.commodities) hbal hc.2
+      refine ⟨?_, ?_⟩
+      · simp only [resolvePosting, hens, hpa, hpa', ib.1]
+      · intro rp c' hv
+        simp only [resolvePosting, hpa] at hv
+        cases hb : resolveOptBalance c.commodities p.balance with
+        | ok r =>
+          obtain ⟨b, cs⟩ := r
+          simp [hb] at hv
+          rw [← hv.2]
+          exact ⟨hacc, ib.2 b cs hb⟩
+        | err x => simp [hb] at hv
+        | panic q => simp [hb] at hv
+        | fuelOut => simp [hb] at hv
+  | some a =>
+    cases hpa' : p'.amount with
+    | none => rw [hpa, hpa'] at hamt; simp [optRel] at hamt
+    | some b =>
+      rw [hpa, hpa'] at hamt
+      have ia := resolveAmount_rel c0.commodities (s := c.commodities) (show PostingAmount.Rel _ a b from hamt) hc.2
+      refine ⟨?_, ?_⟩
+      · simp only [resolvePosting, hens, hpa, hpa', ia.1]
+        cases hra : resolveAmount c.commodities a with
+        | ok r =>
+          obtain ⟨ra, cs1⟩ := r
+          have hs1 := Store.le_trans hc.2 (ia.2 ra cs1 hra)
+          have ib := resolveOptBalance_rel c0.commodities (s := cs1) hbal hs1
+          simp only [ib.1]
+        | err x => rfl
+        | panic q => rfl
+        | fuelOut => rfl
+      · intro rp c' hv
+        simp only [resolvePosting, hpa] at hv
+        cases hra : resolveAmount c.commodities a with
+        | ok r =>
+          obtain ⟨ra, cs1⟩ := r
+          have hl1 := ia.2 ra cs1 hra
+          have hs1 := Store.le_trans hc.2 hl1
+          have ib := resolveOptBalance_rel c0.commodities (s := cs1) hbal hs1
+          simp only [hra] at hv
+          cases hb : resolveOptBalance cs1 p.balance with
+          | ok r2 =>
+            obtain ⟨bb, cs2⟩ := r2
+            simp [hb] at hv
+            rw [← hv.2]
+            exact ⟨hacc, Store.le_trans hl1 (ib.2 bb cs2 hb)⟩
+          | err x => simp [hb] at hv
+          | panic q => simp [hb] at hv
+          | fuelOut => simp [hb] at hv
+        | err x => simp [hra] at hv
+        | panic q => simp [hra] at hv
+        | fuelOut => simp [hra] at hv
+
+theorem loopSyntax_rel (c0 : Ctx) (date : Date) : ∀ (ps ps' : List Posting) (c : Ctx) (st : TxnState String String) (idx : Nat),
+    listRel (Posting.Rel c0.accounts.SameAccount c0.commodities.SameCommodity) ps ps' → c0.le c →
+    loopSyntax date c st idx ps' = loopSyntax date c st idx ps ∧
+    ∀ c' st', loopSyntax date c st idx ps = .ok (c', st') → c.le c'
+  | [], [], c, st, idx, _, _ => ⟨rfl, fun c' st' hv => by simp [loopSyntax] at hv; rw [← hv.1]; exact Ctx.le_refl c⟩
+  | [], _ :: _, _, _, _, h, _ => by simp [listRel] at h
+  | _ :: _, [], _, _, _, h, _ => by simp [listRel] at h
+  | p :: ps, p' :: ps', c, st, idx, h, hc => by
+    simp only [listRel] at h
+    have ip := resolvePosting_rel c0 h.1 hc
+    refine ⟨?_, ?_⟩
+    · simp only [loopSyntax, ip.1]
+      cases hr : resolvePosting c p with
+      | ok r =>
+        obtain ⟨rp, c1⟩ := r
+        have hc1 := Ctx.le_trans hc (ip.2 rp c1 hr)
+        simp only
+        cases hs : stepPosting date st idx rp with
+        | ok st1 => simp only; exact (loopSyntax_rel c0 date ps ps' c1 st1 (idx + 1) h.2 hc1).1
+        | err x => rfl
+        | panic q => rfl
+        | fuelOut => rfl
+      | err x => rfl
+      | panic q => rfl
+      | fuelOut => rfl
+    · intro c' st' hv
+      simp only [loopSyntax] at hv
+      cases hr : resolvePosting c p with
+      | ok r =>
+        obtain ⟨rp, c1⟩ := r
+        have hl1 := ip.2 rp c1 hr
+        have hc1 := Ctx.le_trans hc hl1
+        simp only [hr] at hv
+        cases hs : stepPosting date st idx rp with
+        | ok st1 =>
+          simp only [hs] at hv
+          exact Ctx.le_trans hl1 ((loopSyntax_rel c0 date ps ps' c1 st1 (idx + 1) h.2 hc1).2 c' st' hv)
+        | err x => simp [hs] at hv
+        | panic q => simp [hs] at hv
+        | fuelOut => simp [hs] at hv
+      | err x => simp [hr] at hv
+      | panic q => simp [hr] at hv
+      | fuelOut => simp [hr] at hv
+
+theorem addTransactionSyntax_rel {c : Ctx} {t t' : Transaction} (bal : Balance String String)
+    (h : Transaction.Rel c.accounts.SameAccount c.commodities.SameCommodity t t') :
+    addTransactionSyntax c bal t' = addTransactionSyntax c bal t ∧
+    ∀ c' r, addTransactionSyntax c bal t = .ok (c', r) → c.le c' := by
+  obtain ⟨hd, _, _, _, _, hp, _⟩ := h
+  have il := fun st => loopSyntax_rel c t.date t.posts t'.posts c st 0 hp (Ctx.le_refl c)
+  refine ⟨by simp only [addTransactionSyntax, ← hd, (il _).1], ?_⟩
+  intro c' r hv
+  unfold addTransactionSyntax at hv
+  split at hv
+  next c1 st hl =>
+    split at hv
+    · simp at hv; rw [← hv.1]; exact (il _).2 c1 st hl
+    · simp at hv
+    · simp at hv
+    · simp at hv
+  · simp at hv
+  · simp at hv
+  · simp at hv
+
+/-! ## declarations only add records -/
+
+theorem insertAliases_ok : ∀ (as : List String) (s s' : Store) (k : String), insertAliases s k as = .ok s' →
+    s.le s' ∧ ∀ a ∈ as, AMap.get? s'.recs a = some (some k)
+  | [], s, s', k, h => by simp [insertAliases] at h; subst h; exact ⟨Store.le_refl _, by simp⟩
+  | a :: as, s, s', k, h => by
+    simp only [insertAliases] at h
+    cases ha : s.insertAlias a k with
+    | ok s1 =>
+      simp only [ha] at h
+      have h1 := Store.insertAlias_ok ha
+      have h2 := insertAliases_ok as s1 s' k h
+      refine ⟨Store.le_trans h1.1 h2.1, ?_⟩
+      intro b hb
+      rcases List.mem_cons.1 hb with rfl | hb
+      · exact h2.1 _ _ h1.2
+      · exact h2.2 b hb
+    | err x => simp [ha] at h
+    | panic q => simp [ha] at h
+    | fuelOut => simp [ha] at h
+
+theorem applyCommodityDetails_ok : ∀ (ds : List CommodityDetail) (c c' : Ctx) (k : String),
+    applyCommodityDetails c k ds = .ok c' →
+    c.le c' ∧ ∀ a ∈ commodityAliases ds, AMap.get? c'.commodities.recs a = some (some k)
+  | [], c, c', k, h => by simp [applyCommodityDetails] at h; subst h; exact ⟨Ctx.le_refl _, by simp [commodityAliases]⟩
+  | d :: ds, c, c', k, h => by
+    cases d with
+    | alias a =>
+      simp only [applyCommodityDetails] at h
+      cases ha : c.commodities.insertAlias a k with
+      | ok s1 =>
+        simp only [ha] at h
+        have h1 := Store.insertAlias_ok ha
+        have h2 := applyCommodityDetails_ok ds _ c' k h
+        refine ⟨Ctx.le_trans (show c.le { c with commodities := s1 } from ⟨Store.le_refl _, h1.1⟩) h2.1, ?_⟩
+        intro b hb
+        simp only [commodityAliases, List.filterMap_cons, List.mem_cons] at hb
+        rcases hb with rfl | hb
+        · exact h2.1.2 _ _ h1.2
+        · exact h2.2 b hb
+      | err x => simp [ha] at h
+      | panic q => simp [ha] at h
+      | fuelOut => simp [ha] at h
+    | format v cc =>
+      simp only [applyCommodityDetails] at h
+      have h2 := applyCommodityDetails_ok ds _ c' k h
+      exact ⟨⟨h2.1.1, h2.1.2⟩, fun b hb => h2.2 b (by simpa [commodityAliases] using hb)⟩
+    | comment x =>
+      simp only [applyCommodityDetails] at h
+      have h2 := applyCommodityDetails_ok ds _ c' k h
+      exact ⟨h2.1, fun b hb => h2.2 b (by simpa [commodityAliases] using hb)⟩
+    | note x =>
+      simp only [applyCommodityDetails] at h
+      have h2 := applyCommodityDetails_ok ds _ c' k h
+      exact ⟨h2.1, fun b hb => h2.2 b (by simpa [commodityAliases] using hb)⟩
+
+/-! ## the relations are reflexive and monotone in the name relation -/
+
+mutual
+theorem Expr.rel_mono {R R' : String → String → Prop} (hR : ∀ x y, R x y → R' x y) :
+    ∀ (e e' : Expr), Expr.Rel R e e' → Expr.Rel R' e e'
+  | .neg a, .neg b, h => by simp only [Expr.Rel] at h ⊢; exact Expr.rel_mono hR a b h
+  | .bin o l r, .bin o' l' r', h => by
+    simp only [Expr.Rel] at h ⊢
+    exact ⟨h.1, Expr.rel_mono hR l l' h.2.1, Expr.rel_mono hR r r' h.2.2⟩
+  | .val v, .val v', h => by simp only [Expr.Rel] at h ⊢; exact VExpr.rel_mono hR v v' h
+  | .neg _, .bin _ _ _, h => by simp [Expr.Rel] at h
+  | .neg _, .val _, h => by simp [Expr.Rel] at h
+  | .bin _ _ _, .neg _, h => by simp [Expr.Rel] at h
+  | .bin _ _ _, .val _, h => by simp [Expr.Rel] at h
+  | .val _, .neg _, h => by simp [Expr.Rel] at h
+  | .val _, .bin _ _ _, h => by simp [Expr.Rel] at h
+theorem VExpr.rel_mono {R R' : String → String → Prop} (hR : ∀ x y, R x y → R' x y) :
+    ∀ (e e' : VExpr), VExpr.Rel R e e' → VExpr.Rel R' e e'
+  | .paren a, .paren b, h => by simp only [VExpr.Rel] at h ⊢; exact Expr.rel_mono hR a b h
+  | .amt v c, .amt v' c', h => by simp only [VExpr.Rel] at h ⊢; exact ⟨h.1, hR _ _ h.2⟩
+  | .paren _, .amt _ _, h => by simp [VExpr.Rel] at h
+  | .amt _ _, .paren _, h => by simp [VExpr.Rel] at h
+end
+
+mutual
+theorem Expr.rel_refl {R : String → String → Prop} (hR : ∀ x, R x x) : ∀ e : Expr, Expr.Rel R e e
+  | .neg a => by simp only [Expr.Rel]; exact Expr.rel_refl hR a
+  | .bin o l r => by simp only [Expr.Rel, true_and]; exact ⟨Expr.rel_refl hR l, Expr.rel_refl hR r⟩
+  | .val v => by simp only [Expr.Rel]; exact VExpr.rel_refl hR v
+theorem VExpr.rel_refl {R : String → String → Prop} (hR : ∀ x, R x x) : ∀ e : VExpr, VExpr.Rel R e e
+  | .paren a => by simp only [VExpr.Rel]; exact Expr.rel_refl hR a
+  | .amt v c => by simp only [VExpr.Rel, true_and]; exact hR c
+end
+
+theorem optRel_mono {α : Type} {r r' : α → α → Prop} (h : ∀ a b, r a b → r' a b) :
+    ∀ x y : Option α, optRel r x y → optRel r' x y
+  | none, none, _ => trivial
+  | some a, some b, hr => h a b hr
+  | none, some _, hr => by simp [optRel] at hr
+  | some _, none, hr => by simp [optRel] at hr
+
+theorem optRel_refl {α : Type} {r : α → α → Prop} (h : ∀ a, r a a) : ∀ x : Option α, optRel r x x
+  | none => trivial
+  | some a => h a
+
+theorem listRel_mono {α : Type} {r r' : α → α → Prop} (h : ∀ a b, r a b → r' a b) :
+    ∀ x y : List α, listRel r x y → listRel r' x y
+  | [], [], _ => trivial
+  | a :: as, b :: bs, hr => ⟨h a b hr.1, listRel_mono h as bs hr.2⟩
+  | [], _ :: _, hr => by simp [listRel] at hr
+  | _ :: _, [], hr => by simp [listRel] at hr
+
+theorem listRel_refl {α : Type} {r : α → α → Prop} (h : ∀ a, r a a) : ∀ x : List α, listRel r x x
+  | [] => trivial
+  | a :: as => ⟨h a, listRel_refl h as⟩
+
+theorem Exchange.rel_mono {R R' : String → String → Prop} (hR : ∀ x y, R x y → R' x y) :
+    ∀ a b : Exchange, Exchange.Rel R a b → Exchange.Rel R' a b
+  | .total a, .total b, h => VExpr.rel_mono hR a b h
+  | .rate a, .rate b, h => VExpr.rel_mono hR a b h
+  | .total _, .rate _, h => by simp [Exchange.Rel] at h
+  | .rate _, .total _, h => by simp [Exchange.Rel] at h
+
+theorem Exchange.rel_refl {R : String → String → Prop} (hR : ∀ x, R x x) : ∀ a : Exchange, Exchange.Rel R a a
+  | .total a => VExpr.rel_refl hR a
+  | .rate a => VExpr.rel_refl hR a
+
+theorem Posting.rel_mono {Ra Ra' Rc Rc' : String → String → Prop} (ha : ∀ x y, Ra x y → Ra' x y)
+    (hc : ∀ x y, Rc x y → Rc' x y) (p q : Posting) (h : Posting.Rel Ra Rc p q) : Posting.Rel Ra' Rc' p q := by
+  obtain ⟨h1, h2, h3, h4, h5⟩ := h
+  refine ⟨ha _ _ h1, h2, optRel_mono ?_ _ _ h3, optRel_mono (VExpr.rel_mono hc) _ _ h4, h5⟩
+  intro a b hab
+  obtain ⟨g1, g2, g3, g4, g5⟩ := hab
+  exact ⟨VExpr.rel_mono hc _ _ g1, optRel_mono (Exchange.rel_mono hc) _ _ g2, optRel_mono (Exchange.rel_mono hc) _ _ g3, g4, g5⟩
+
+theorem Posting.rel_refl {Ra Rc : String → String → Prop} (ha : ∀ x, Ra x x) (hc : ∀ x, Rc x x) (p : Posting) :
+    Posting.Rel Ra Rc p p :=
+  ⟨ha _, rfl, optRel_refl (fun a => ⟨VExpr.rel_refl hc _, optRel_refl (Exchange.rel_refl hc) _,
+    optRel_refl (Exchange.rel_refl hc) _, rfl, rfl⟩) _, optRel_refl (VExpr.rel_refl hc) _, rfl⟩
+
+theorem Transaction.rel_mono {Ra Ra' Rc Rc' : String → String → Prop} (ha : ∀ x y, Ra x y → Ra' x y)
+    (hc : ∀ x y, Rc x y → Rc' x y) (t u : Transaction) (h : Transaction.Rel Ra Rc t u) : Transaction.Rel Ra' Rc' t u := by
+  obtain ⟨h1, h2, h3, h4, h5, h6, h7⟩ := h
+  exact ⟨h1, h2, h3, h4, h5, listRel_mono (Posting.rel_mono ha hc) _ _ h6, h7⟩
+
+theorem Transaction.rel_refl {Ra Rc : String → String → Prop} (ha : ∀ x, Ra x x) (hc : ∀ x, Rc x x) (t : Transaction) :
+    Transaction.Rel Ra Rc t t :=
+  ⟨rfl, rfl, rfl, rfl, rfl, listRel_refl (Posting.rel_refl ha hc) _, rfl⟩
+
+theorem Entry.rel_mono {Ra Ra' Rc Rc' : String → String → Prop} (ha : ∀ x y, Ra x y → Ra' x y)
+    (hc : ∀ x y, Rc x y → Rc' x y) (e e' : Entry) (h : Entry.Rel Ra Rc e e') : Entry.Rel Ra' Rc' e e' := by
+  cases e <;> cases e' <;> simp_all [Entry.Rel]
+  exact Transaction.rel_mono ha hc _ _ h
+
+/-! ## one entry -/
+
+/-- processing an entry only adds records to the two stores. -/
+theorem stepEntry_le {st st' : ProcState} {e : Entry} (h : stepEntry st e = .ok st') : st.ctx.le st'.ctx := by
+  cases e with
+  | txn t =>
+    simp only [stepEntry] at h
+    have := addTransactionSyntax_rel (c := st.ctx) (t := t) (t' := t) st.bal
+      (Transaction.rel_refl (fun _ => Or.inl rfl) (fun _ => Or.inl rfl) t)
+    cases ha : addTransactionSyntax st.ctx st.bal t with
+    | ok r => obtain ⟨c', rr⟩ := r; simp [ha] at h; rw [← h]; exact this.2 c' rr ha
+    | err x => simp [ha] at h
+    | panic q => simp [ha] at h
+    | fuelOut => simp [ha] at h
+  | account name details =>
+    simp only [stepEntry] at h
+    cases hc : st.ctx.accounts.insertCanonical name with
+    | ok r =>
+      obtain ⟨k, s1⟩ := r
+      simp only [hc] at h
+      split at h
+      next s2 hi =>
+        simp at h
+        rw [← h]
+        exact ⟨Store.le_trans (Store.insertCanonical_ok hc).1 (insertAliases_ok _ _ _ _ hi).1, Store.le_refl _⟩
+      · simp at h
+      · simp at h
+      · simp at h
+    | err x => simp [hc] at h
+    | panic q => simp [hc] at h
+    | fuelOut => simp [hc] at h
+  | commodity name details =>
+    simp only [stepEntry] at h
+    cases hc : st.ctx.commodities.insertCanonical name with
+    | ok r =>
+      obtain ⟨k, s1⟩ := r
+      simp only [hc] at h
+      cases hi : applyCommodityDetails { st.ctx with commodities := s1 } k details with
+      | ok c' =>
+        simp [hi] at h
+        rw [← h]
+        exact Ctx.le_trans (show st.ctx.le { st.ctx with commodities := s1 } from
+          ⟨Store.le_refl _, (Store.insertCanonical_ok hc).1⟩) (applyCommodityDetails_ok _ _ _ _ hi).1
+      | err x => simp [hi] at h
+      | panic q => simp [hi] at h
+      | fuelOut => simp [hi] at h
+    | err x => simp [hc] at h
+    | panic q => simp [hc] at h
+    | fuelOut => simp [hc] at h
+  | comment s => simp [stepEntry] at h; rw [← h]; exact Ctx.le_refl _
+  | applyTag k v => simp [stepEntry] at h; rw [← h]; exact Ctx.le_refl _
+  | endApplyTag => simp [stepEntry] at h; rw [← h]; exact Ctx.le_refl _
+  | «include» p => simp [stepEntry] at h; rw [← h]; exact Ctx.le_refl _
+
+theorem processFrom_append : ∀ (as bs : List Entry) (st : ProcState) (i : Nat),
+    processFrom st i (as ++ bs) =
+      match processFrom st i as with
+      | .ok st' => processFrom st' (i + as.length) bs
+      | .err x => .err x
+      | .panic s => .panic s
+      | .fuelOut => .fuelOut
+  | [], bs, st, i => by simp [processFrom]
+  | a :: as, bs, st, i => by
+    simp only [List.cons_append, processFrom]
+    cases h : stepEntry st a with
+    | ok st1 =>
+      simp only
+      rw [processFrom_append as bs st1 (i + 1)]
+      simp only [List.length_cons]
+      rw [show i + 1 + as.length = i + (as.length + 1) by omega]
+    | err x => rfl
+    | panic q => rfl
+    | fuelOut => rfl
+
 end Okane
